@@ -807,6 +807,11 @@ func (fr *Frame) execInstr(in ssa.Instruction, st *State) {
 	}
 }
 
+func isConstVal(v ssa.Value) bool {
+	_, ok := v.(*ssa.Const)
+	return ok
+}
+
 func maxI64(a, b int64) int64 {
 	if a > b {
 		return a
@@ -872,6 +877,25 @@ func (fr *Frame) execUnOp(in *ssa.UnOp, st *State) {
 		v = fr.nameVal(in.Name()+"_"+sanitize(fr.fn.Name()), v)
 		fc.assume(st, fc.typeFacts(st, v, in.Type()))
 		fr.env[in] = v
+		// element reads of slices also exist as elt_S terms, the form quantified specs are triggered by
+		if ia, ok := in.X.(*ssa.IndexAddr); ok {
+			if sl, ok := ia.X.Type().Underlying().(*types.Slice); ok {
+				if sv, ok := fr.env[ia.X]; ok {
+					if iv, ok := fr.env[ia.Index]; ok || isConstVal(ia.Index) {
+						if !ok {
+							iv = fr.val(ia.Index)
+						}
+						lay := fc.eng.ti.LayoutOf(sl.Elem())
+						leaves := flatten(v, nil)
+						for k, lf := range lay.Leaves {
+							h := fc.leafHeap(st, lf.Sort)
+							e := app(lf.Sort, "elt_"+string(lf.Sort), Select(h, SArr(sv.T)), SOff(sv.T), Add(Mul(iv.T, IntLit(lay.Width)), IntLit(lf.Off)))
+							fc.sc.Assert(Eq(e, leaves[k]))
+						}
+					}
+				}
+			}
+		}
 	case token.NOT:
 		fr.define(in, scalar(Not(fr.val(in.X).T)))
 	case token.SUB:
@@ -1262,7 +1286,8 @@ func (fr *Frame) typeAssert(in *ssa.TypeAssert, st *State) {
 	var ok *Term
 	var v Val
 	if _, isIface := in.AssertedType.Underlying().(*types.Interface); isIface {
-		if it := in.AssertedType.Underlying().(*types.Interface); it.NumMethods() == 0 {
+		if it := in.AssertedType.Underlying().(*types.Interface); it.NumMethods() == 0 || types.Implements(in.X.Type(), it) {
+			// the static type already guarantees the methods: only nil-ness is tested
 			ok = Ne(ITag(x), IntLit(0))
 		} else {
 			ok = And(Ne(ITag(x), IntLit(0)), app(SBool, fc.implPred(in.AssertedType), ITag(x)))
